@@ -128,6 +128,10 @@ SEARCH_CASES = {
     "two_counted_records_sum": ('<start> ::= <rec>{2} "."\n<rec> ::= <n> ":" <item>{int(<n>)} ";"\n<n> ::= <dg>\n<dg> ::= "0" | "1" | "2" | "3" | "4" | "5" | "6" | "7" | "8" | "9"\n'
                                 '<item> ::= "a" | "b" | "c"\nwhere sum(int(str(x)) for x in *<n>) == 7\n',
                                 lambda o: _two_records_ok(o)),
+    # plain expressions whose value is a match object or None (None is falsy: no match = not satisfied)
+    "expression_returning_none": ('import re\n<start> ::= <w> "=" <v>\n<w> ::= r"[a-cx-z]{2}"\n<v> ::= r"[0-9]{2}"\n'
+                                  'where re.search(r"^[abc]", str(<w>))\nwhere re.fullmatch(r"[1-9][0-9]", str(<v>))\n',
+                                  lambda o: o[0] in "abc" and o.split("=")[1][0] != "0"),
     "len_prefixed": ('<start> ::= <len> <payload>\n<len> ::= r"[0-9]"\n<payload> ::= r"[a-z]"*\nwhere int(<len>) == len(str(<payload>))\nwhere str(<payload>).count("z") >= 1\n',
                      lambda o: o[0].isdigit() and int(o[0]) == len(o) - 1 and o.count("z") >= 1),
 }
